@@ -37,3 +37,30 @@ Print Assumptions C01_unwanted_ignored.
 Print Assumptions C01_response_is_wanted_block.
 Print Assumptions C01_put_only_accepted.
 Print Assumptions C01_new_blocks_only_stored.
+
+(* ---- network level (package G, Net_proofs19/20): in every reachable net whose application only puts blocks that hash
+   to their CID, EVERY block in EVERY node's store — and every block about to be written (put_many in flight) — hashes to
+   its CID, and every GetQueryResponse carries data that hashes to the CID its query asked for. *)
+From BS Require Import Net Net_proofs Net_proofs2 Net_proofs5 Net_proofs7 Net_proofs9 Net_proofs10 Net_proofs13 Net_props Net_proofs14 Net_proofs15 Net_proofs16 Net_proofs17 Net_proofs18 Net_proofs19 Net_proofs20 Net_proofs21 Server Server_inv Net_props2.
+From Coq Require Import ZArith Lia.
+Open Scope N_scope.
+
+Theorem C01_net_store_integrity :
+  forall (Sz : N) (Hh : hash_fn),
+  32 <= Sz ->
+  forall (n : nat) (ops : list nop),
+  Forall (nop_good Sz Hh) ops ->
+  Forall (nop_wf Sz) ops ->
+  let r := nrun Sz Hh (net_init n) ops in
+  (forall (i : N) (nd : node) (c : cid) (d : bytes),
+   get_node (fst r) i = Some nd -> In (c, d) (n_store nd) -> wf_cid Sz c /\ valid_block Sz Hh c d = true) /\
+  (forall (i : N) (nd : node) (m : N) (bl : list (cid * bytes)) (c : cid) (d : bytes),
+   get_node (fst r) i = Some nd ->
+   In (KCPut m bl) (n_calls nd) -> In (c, d) bl -> wf_cid Sz c /\ valid_block Sz Hh c d = true) /\
+  (forall (i : N) (q : qid) (d : bytes),
+   In (EResponse i q d) (snd r) ->
+   exists c : cid,
+     nth_error (gets_of i ops) (N.to_nat q) = Some c /\ wf_cid Sz c /\ valid_block Sz Hh c d = true).
+Proof. exact (@Net_props2.C01_net_store_integrity). Qed.
+
+Print Assumptions C01_net_store_integrity.
